@@ -9,4 +9,5 @@ INVARIANT PresenceLaw
 INVARIANT ConservationLaw
 INVARIANT ReaderWriterCoincide
 INVARIANT NoDuplicatePaths
+INVARIANT EntryLaw
 CHECK_DEADLOCK FALSE
